@@ -176,29 +176,37 @@ impl Run {
         self.app.wrap().query_supply(DENOM).map(|c| c.amount.u128()).unwrap_or(u128::MAX)
     }
 
-    fn shown(&self, d: usize, v: usize) -> Result<u128, String> {
+    /// (shown delegation, pending reward shown) of a pair with one delegation query; the keeper's own
+    /// accessor supplies the pending reward when the query hides a sub-token delegation.
+    fn view(&self, d: usize, v: usize) -> Result<(u128, u128), String> {
         match self.app.wrap().query_delegation(self.addrs[d].clone(), self.validators[v].clone()) {
-            Ok(Some(fd)) => Ok(fd.amount.amount.u128()),
-            Ok(None) => Ok(0),
+            Ok(Some(fd)) => {
+                let pending = fd.accumulated_rewards.iter().filter(|c| c.denom == DENOM).map(|c| c.amount.u128()).sum();
+                Ok((fd.amount.amount.u128(), pending))
+            }
+            Ok(None) => {
+                let block = self.app.block_info();
+                let a = Addr::unchecked(self.addrs[d].clone());
+                let val = self.validators[v].clone();
+                let pending = self
+                    .app
+                    .read_module(|router, _api, storage| router.staking.inner.get_rewards(storage, &block, &a, &val))
+                    .ok()
+                    .flatten()
+                    .map(|c| c.amount.u128())
+                    .unwrap_or(0);
+                Ok((0, pending))
+            }
             Err(e) => Err(e.to_string()),
         }
     }
 
-    /// pending reward shown for the pair (through the delegation query, or the keeper's own
-    /// accessor when the query hides a sub-token delegation)
+    fn shown(&self, d: usize, v: usize) -> Result<u128, String> {
+        self.view(d, v).map(|x| x.0)
+    }
+
     fn pending(&self, d: usize, v: usize) -> u128 {
-        if let Ok(Some(fd)) = self.app.wrap().query_delegation(self.addrs[d].clone(), self.validators[v].clone()) {
-            return fd.accumulated_rewards.iter().filter(|c| c.denom == DENOM).map(|c| c.amount.u128()).sum();
-        }
-        let block = self.app.block_info();
-        let a = Addr::unchecked(self.addrs[d].clone());
-        let val = self.validators[v].clone();
-        self.app
-            .read_module(|router, _api, storage| router.staking.inner.get_rewards(storage, &block, &a, &val))
-            .ok()
-            .flatten()
-            .map(|c| c.amount.u128())
-            .unwrap_or(0)
+        self.view(d, v).map(|x| x.1).unwrap_or(0)
     }
 
     fn pair(&mut self, d: usize, v: usize) -> &mut Pair {
@@ -430,16 +438,19 @@ impl Run {
             }
         }
         let nv = self.validators.len();
+        let mut views: Vec<Vec<(u128, u128)>> = vec![];
         for d in 0..nd {
+            let mut row = vec![];
             for v in 0..nv {
                 let exp = self.m.pairs.get(&(d, v)).map(|p| p.shown).unwrap_or(0);
-                match self.shown(d, v) {
-                    Ok(got) => {
+                match self.view(d, v) {
+                    Ok((got, pending)) => {
                         if got != exp {
                             let det = format!("{}: delegation of {} to validator {} shows {} but the model expects {}", what, d, v, got, exp);
                             self.v(P14, "delegation", det);
                             return;
                         }
+                        row.push((got, pending));
                     }
                     Err(e) => {
                         self.v(P14, "delegation_query_failed", format!("{}: delegation query failed: {}", what, e));
@@ -447,6 +458,7 @@ impl Run {
                     }
                 }
             }
+            views.push(row);
             // the all-delegations query agrees with the single ones (zero entries ignored)
             if let Ok(all) = self.app.wrap().query_all_delegations(self.addrs[d].clone()) {
                 for del in all {
@@ -468,7 +480,7 @@ impl Run {
                     Some(p) => p.clone(),
                     None => continue,
                 };
-                let pending = self.pending(d, v);
+                let pending = views[d][v].1;
                 // never over-paid
                 let paid_hi = u256(p.w_hi + pending) * unit;
                 if paid_hi > p.i_hi + eps_hi {
